@@ -17,6 +17,9 @@ mk dectomindec "decToMinDec prints 60" C20 "minutes-range"
 mk mailbox-atomic "mailbox writes message files in place" C11 "shape:function-exists"
 mk mailbox-mid "remote-chosen MIDs" C12 "shape:function-exists"
 mk mailbox-p2p "leaks private headers" C10 "stripped"
+mk ardop-ctrl "parseCtrlMsg panics" C14 "parseCtrlMsg/"
+mk ardop-frame "readFrameOfType panics" C14 "readFrameOfType/"
+mk ardop-read "tncConn.Read panics" C14 "Read/"
 mk telnet-bytes "telnet login loses bytes" C15 "contract errors"
 mk telnet-deadline "ignores the context deadline" C15 "DialContext/"
 mk body-long "drops the text from the first line" C18 "StringToBody/"
